@@ -55,7 +55,8 @@ def make_rows(case):
         for obs, pairs in ind['obs'].items():
             for t, v in pairs:
                 row = {'ID': _id, 'Time': t, 'Observable': ren.get(obs, obs),
-                       'Value': v, 'Dose': np.nan, 'Duration': np.nan}
+                       'Value': np.nan if ind.get('unmeasured') else v,
+                       'Dose': np.nan, 'Duration': np.nan}
                 if joined is not None and t == joined[0] and \
                         obs == list(ind['obs'])[0]:
                     row['Dose'] = joined[1]
@@ -69,7 +70,7 @@ def make_rows(case):
         for cname, cv in ind.get('cov', {}).items():
             block.append({'ID': _id, 'Time': np.nan, 'Observable': cname,
                           'Value': cv, 'Dose': np.nan, 'Duration': np.nan})
-        if case['extras'].get('unrelated_obs'):
+        if case['extras'].get('unrelated_obs') or ind.get('unmeasured'):
             block.append({'ID': _id, 'Time': 0.7, 'Observable': 'weightZ',
                           'Value': 77.0 + ind['id'], 'Dose': np.nan,
                           'Duration': np.nan})
@@ -149,9 +150,21 @@ def first_appearance(case):
 
 # ------------------------------------------------------------ models
 
-def mech_model(case):
+def mech_model(case, for_controller=False):
     if case['model'] == 'toy1':
         return ToyModel(2, 1), {'o0': 'A'}
+    if case['model'] == 'toy2' and case.get('outputs_arg'):
+        # the controller is given `outputs=`: the same outputs, the other order, or
+        # one of them (the hand-assembled side configures its model itself)
+        sel = {'same': ['o0', 'o1'], 'reversed': ['o1', 'o0'], 'second': ['o1'],
+               'first': ['o0']}[case['outputs_arg']]
+        m = ToyModel(2, 2)
+        if case.get('outputs_preset'):
+            m.set_outputs(case['outputs_preset'])
+        if not for_controller:
+            m.set_outputs(sel)
+        full = {'o0': 'A', 'o1': 'B'}
+        return m, {o: full[o] for o in sel}
     if case['model'] == 'toy2':
         if case.get('map_order') == 'reversed':
             # the same mapping, written down in the other order
@@ -163,6 +176,15 @@ def mech_model(case):
 
 
 def error_models(case):
+    if case['model'] == 'toy2' and case.get('outputs_arg'):
+        return {'same': lambda: [chi.GaussianErrorModel(),
+                                 chi.ConstantAndMultiplicativeGaussianErrorModel()],
+                'reversed': lambda: [
+                    chi.ConstantAndMultiplicativeGaussianErrorModel(),
+                    chi.GaussianErrorModel()],
+                'second': lambda: [
+                    chi.ConstantAndMultiplicativeGaussianErrorModel()],
+                'first': lambda: [chi.GaussianErrorModel()]}[case['outputs_arg']]()
     if case['model'] == 'toy2':
         return [chi.GaussianErrorModel(),
                 chi.ConstantAndMultiplicativeGaussianErrorModel()]
@@ -172,6 +194,12 @@ def error_models(case):
 def bottom_names(case):
     m, _ = mech_model(case)
     names = m.parameters()
+    if case['model'] == 'toy2' and case.get('outputs_arg'):
+        return names + {
+            'same': ['o0 Sigma', 'o1 Sigma base', 'o1 Sigma rel.'],
+            'reversed': ['o1 Sigma base', 'o1 Sigma rel.', 'o0 Sigma'],
+            'second': ['Sigma base', 'Sigma rel.'], 'first': ['Sigma']}[
+                case['outputs_arg']]
     if case['model'] == 'toy2':
         return names + ['o0 Sigma', 'o1 Sigma base', 'o1 Sigma rel.']
     return names + ['Sigma']
@@ -199,10 +227,18 @@ def name_covariates(pop, reverse=False):
 
 
 def controller_posterior(case, df, keys):
-    m, oo = mech_model(case)
+    m, oo = mech_model(case, for_controller=True)
     if case.get('obs_rename'):
         oo = {out: case['obs_rename'].get(name, name) for out, name in oo.items()}
-    c = chi.ProblemModellingController(m, error_models(case))
+    if case.get('no_map'):
+        # the observables carry the names of the outputs: no map is given
+        assert all(k_ == v_ for k_, v_ in oo.items())
+        oo = None
+    if case.get('outputs_arg'):
+        c = chi.ProblemModellingController(m, error_models(case),
+                                           outputs=list(oo.keys()))
+    else:
+        c = chi.ProblemModellingController(m, error_models(case))
     if case.get('fix_before_data'):
         # parameters are fixed before the data are given
         names0 = c.get_parameter_names()
@@ -264,7 +300,10 @@ def hand_posterior(case, individual=None):
             m.set_dosing_regimen(p)
         obs, times = [], []
         for o in outputs:
-            pairs = sorted(ind['obs'].get(oo[o], []))
+            # (an individual all of whose measurements are missing still is an
+            # individual of the population)
+            pairs = [] if ind.get('unmeasured') else sorted(
+                ind['obs'].get(oo[o], []))
             times.append([t for t, v in pairs])
             obs.append([v for t, v in pairs])
         ll = chi.LogLikelihood(m, error_models(case), obs, times)
@@ -358,6 +397,15 @@ def w_case(case):
             outcome.append(a)
         sa, ga = post.evaluateS1(x)
         sb, gb = hand.evaluateS1(x)
+        # (the plain call after the call with sensitivities is the same number as
+        # the plain call before it)
+        a2 = post(x)
+        ntr += 1
+        if not tol.close(a2, a, 1e-7, 1e-9):
+            viol.append({'sub': 'after_s1', 'message': 'the log-posterior at the '
+                         'same point differs once evaluateS1 was called in between '
+                         '(%s, individual %s)' % (lab, target), 'expected': a,
+                         'observed': a2, 'behaviour': 'after_s1'})
         if not tol.close(sa, sb, 1e-7, 1e-9) or not tol.allclose(
                 ga, gb, 1e-6, 1e-8):
             viol.append({'sub': 'grad', 'message': 'sensitivities differ from the '
@@ -534,6 +582,39 @@ def build(tier, seed):
                         if not direct:
                             c['pop'] = None
                         dose_cases.append(c)
+    # the controller is told which outputs to use (and in which order), with the
+    # model's outputs left alone or set beforehand to another order / selection
+    for oarg in ('same', 'reversed', 'second', 'first'):
+        for preset in (None, ['o1', 'o0'], ['o0'], ['o1']):
+            for n in (1, 2, 3):
+                inds = individuals(n, True, False, False, seed)
+                for (bo, it) in orders(n, 'quick')[:2]:
+                    for pop in (None, pops['toy2'][0]):
+                        if pop is not None and oarg in ('first', 'second'):
+                            continue
+                        (ind_cases if pop is None else hier_cases).append({
+                            'model': 'toy2', 'inds': inds, 'id_type': 'int',
+                            'block_order': bo, 'interleave': it, 'dosing': False,
+                            'extras': {}, 'fix': None, 'pop': pop, 'cov_names': [],
+                            'pop_first': True, 'seed': seed, 'outputs_arg': oarg,
+                            'outputs_preset': preset})
+    # an individual without any usable measurement (all values missing, one row of
+    # an unrelated observable): first, middle, last; with and without covariates
+    for model, pop in (('toy1', pops['toy1'][0]), ('toy1', pops['toy1'][2]),
+                       ('toy2', pops['toy2'][0])):
+        ncov_ = rp.n_cov(pop)
+        for n in (2, 3):
+            for who in range(n):
+                inds = [dict(i_) for i_ in individuals(
+                    n, model == 'toy2', False, ncov_ > 0, seed)]
+                inds[who]['unmeasured'] = True
+                for (bo, it) in orders(n, 'quick')[:2]:
+                    hier_cases.append({
+                        'model': model, 'inds': inds, 'id_type': 'int',
+                        'block_order': bo, 'interleave': it, 'dosing': False,
+                        'extras': {}, 'pop': pop,
+                        'cov_names': ['age', 'wt'][:ncov_], 'fix': None,
+                        'pop_first': True, 'seed': seed})
     # replicate measurements (one observable measured twice at one time)
     for model, pop in (('toy1', None), ('toy2', None), ('toy1', pops['toy1'][0])):
         for n in (1, 2, 3):
@@ -562,6 +643,18 @@ def build(tier, seed):
                 'model': 'toy2', 'inds': inds, 'id_type': 'int', 'block_order': bo,
                 'interleave': it, 'dosing': False, 'extras': {}, 'fix': None,
                 'seed': seed, 'obs_rename': {'A': 'o1', 'B': 'o0'}})
+    # observables named like the outputs they belong to, no map given; the rows of
+    # the second output come first in some orders
+    for n in (1, 2, 3):
+        inds = individuals(n, True, False, False, seed)
+        for (bo, it) in orders(n, 'thorough')[::2]:
+            for pop in (None, pops['toy2'][0]):
+                (ind_cases if pop is None else hier_cases).append({
+                    'model': 'toy2', 'inds': inds, 'id_type': 'int',
+                    'block_order': bo, 'interleave': it, 'dosing': False,
+                    'extras': {}, 'fix': None, 'seed': seed, 'pop': pop,
+                    'cov_names': [], 'pop_first': True,
+                    'obs_rename': {'A': 'o0', 'B': 'o1'}, 'no_map': True})
     ind_cases.append({
         'model': 'toy1', 'inds': individuals(2, True, False, False, seed),
         'id_type': 'int', 'block_order': [0, 1], 'interleave': 'grouped',
